@@ -255,6 +255,8 @@ def _setup(ctx, state):
     if ot[0] != "inv_same":
         ctx.probes.hit("ode-solved-through:" + ot[0])
     state["tf_ivp"] = InverseRTransform(tf)
+    # (a caller scanning the scale of the map: the same kind of wrapper around a map with another parameter)
+    state["tf_ivp_alt"] = InverseRTransform(BeckeRTransform(g["rmin"], round(g["R"] * 1.7, 3)))
     state["center"] = c
     state["pts0"] = c + np.random.RandomState(g["pseed"]).uniform(-2.0, 2.0, size=(12, 3))  # oracle's own copy
     # two of the evaluation points are special: very close to the centre, and far outside the charge
@@ -536,7 +538,8 @@ def _op_solve(ctx, op, state):
 def _op_ivp(ctx, op, state):
     from grid.poisson import solve_poisson_ivp
 
-    _, which = op
+    which = op[1]
+    alt = len(op) > 2 and bool(op[2])
     g, c, pts = state["grid"], state["center"], state["pts"]
     spec = [t for t in _dens_spec(ctx, which) if t[0] == "s"]  # IVP solver: spherically symmetric densities
     if not spec or (ctx.spec["grid"].get("radial") or ["becke"])[0] != "becke":
@@ -550,7 +553,9 @@ def _op_ivp(ctx, op, state):
         ctx.probes.hit("one-options-dict-shared-by-bvp-and-ivp")
     else:
         state["ivp_params"] = state.get("ivp_params", {})
-    oc = _outcome(lambda: solve_poisson_ivp(g, rho, state["tf_ivp"], r_interval=tuple(ctx.spec["grid"].get("r_interval") or (500.0, 1e-3)), ode_params=state["ivp_params"])(pts))
+    if alt:
+        ctx.probes.hit("ivp-through-map-with-other-scale")
+    oc = _outcome(lambda: solve_poisson_ivp(g, rho, state["tf_ivp_alt" if alt else "tf_ivp"], r_interval=tuple(ctx.spec["grid"].get("r_interval") or (500.0, 1e-3)), ode_params=state["ivp_params"])(pts))
     if oc[0] == "raise":
         ctx.violate("ivp-raise", "ivp", type(oc[1]).__name__, f"solve_poisson_ivp raised {oc[1]!r} on the shared grid / options")
         return
@@ -946,9 +951,9 @@ class PoissonSeamEngine:
             u = rng.random()
             if u < 0.55:
                 ops.append(["solve", rng.choice(["rho1", "rho2", "combo", "rho1"]), rng.choice(BEHAVIOURS), rng.randrange(1000), {"shared_params": rng.random() < 0.8, "grid_b": rng.random() < 0.25}])
-            elif u < 0.62:
-                ops.append(["ivp", rng.choice(["rho1", "rho2"])])
             elif u < 0.66:
+                ops.append(["ivp", rng.choice(["rho1", "rho2"]), rng.random() < 0.4])
+            elif u < 0.69:
                 ops.append(["laplacian", rng.choice(["rho1", "rho2", "combo"])])
             elif u < 0.80:
                 ops.append(["robust", rng.choice(["core", "core", "core+smooth"]), rng.choice(ROBUST_ELEMENTS), rng.choice(BEHAVIOURS), rng.randrange(1000),
